@@ -34,6 +34,11 @@ func genC11Facts() (string, string) {
 		{"c11_body_transformDependsOn", funcBody(parse("transform/dependson.go"), "", "transformDependsOn")},
 		{"c11_body_transformEnvFile", funcBody(parse("transform/envfile.go"), "", "transformEnvFile")},
 		{"c11_body_transformEnvFileValue", funcBody(parse("transform/envfile.go"), "", "transformEnvFileValue")},
+		// the defaults inside the unicity keys (override/uncity.go), modelled in Model/C11Keys.lean
+		{"c11_body_portIndexer", funcBody(parse("override/uncity.go"), "", "portIndexer")},
+		{"c11_body_mountIndexer", funcBody(parse("override/uncity.go"), "", "mountIndexer")},
+		{"c11_body_envFileIndexer", funcBody(parse("override/uncity.go"), "", "envFileIndexer")},
+		{"c11_body_enforceUnicity", funcBody(parse("override/uncity.go"), "", "enforceUnicity")},
 	}
 	for _, e := range entries {
 		fmt.Fprintf(&b, "def %s : String := %s\n", e.name, leanStr(e.body))
